@@ -231,6 +231,56 @@ fn enc(v: &V, n: usize, alpha: bool) -> Value {
 }
 fn fin(v: &V, n: usize, alpha: bool) -> bool { v[..n].iter().all(|c| c.is_finite()) && (!alpha || v[3].is_finite()) }
 
+fn walk(nodes: &[NodeInfo], table: &[Vec<Option<ConvFn>>], c: &Value, path_key: &str, mode: u8) -> Value {
+    let idx = |name: &str| -> usize {
+        nodes.iter().position(|n| n.name == name).unwrap_or_else(|| { eprintln!("unknown node {}", name); std::process::exit(3) })
+    };
+    let from = idx(c["from"].as_str().unwrap());
+    let alpha = mode == b'a';
+    let mut v: V = [0.0; 4];
+    let ins = c["in"].as_array().unwrap();
+    let with_alpha_in = ins.len() > nodes[from].n;
+    for (k, s) in ins.iter().enumerate() {
+        let x = hexf(s.as_str().unwrap());
+        if with_alpha_in && k == ins.len() - 1 { v[3] = x } else { v[k] = x }
+    }
+    let path: Vec<usize> = c[path_key].as_array().unwrap().iter().map(|p| idx(p.as_str().unwrap())).collect();
+    let mut names = vec![nodes[from].name];
+    let mut vals = vec![enc(&v, nodes[from].n, alpha)];
+    let mut oks: Vec<u8> = vec![1];
+    let mut hub: Vec<Value> = vec![];
+    let mut panic = 0u8;
+    let mut finite = fin(&v, nodes[from].n, alpha) as u8;
+    let mut missing = 0u8;
+    let xyz_i = 0usize;
+    let hub_of = |cur: usize, v: &V| -> Value {
+        if cur == xyz_i { return enc(v, 3, false); }
+        match table[cur][xyz_i] {
+            Some(f) => match catch(|| f(v, b'u')) { Ok(o) => enc(&o.v, 3, false), Err(_) => json!([[2, 0], [2, 0], [2, 0]]) },
+            None => json!([[2, 0], [2, 0], [2, 0]]),
+        }
+    };
+    hub.push(hub_of(from, &v));
+    let mut cur = from;
+    for &to in &path {
+        let f = match table[cur][to] { Some(f) => f, None => { missing = 1; names.push(nodes[to].name); break } };
+        match catch(|| f(&v, mode)) {
+            Ok(o) => {
+                v = o.v;
+                oks.push(o.ok as u8);
+                if !fin(&v, nodes[to].n, alpha) { finite = 0; }
+                names.push(nodes[to].name);
+                vals.push(enc(&v, nodes[to].n, alpha));
+                hub.push(hub_of(to, &v));
+                cur = to;
+            }
+            Err(_) => { panic = 1; names.push(nodes[to].name); break }
+        }
+    }
+    json!({"mode": (mode as char).to_string(), "nodes": names, "vals": vals, "ok": oks, "hub": hub,
+           "panic": panic, "fin": finite, "missing": missing})
+}
+
 pub fn convmain() {
     let nodes = nodes();
     let table = table();
@@ -299,52 +349,25 @@ pub fn convmain() {
                 }
                 rec.ev(e);
             }
+            "tri" => {
+                // two routes from the same input: {"op":"tri","from":..,"in":[..],"p1":[..],"p2":[..]}
+                let w1 = walk(&nodes, &table, &c, "p1", b'u');
+                let w2 = walk(&nodes, &table, &c, "p2", b'u');
+                rec.ev(json!({"ev": "tri", "id": c["id"], "t": TNAME, "w1": w1, "w2": w2}));
+            }
             _ => {
-                let from = idx(c["from"].as_str().unwrap());
                 let mode = c.get("mode").and_then(|m| m.as_str()).unwrap_or("u").as_bytes()[0];
-                let alpha = mode == b'a';
-                let mut v: V = [0.0; 4];
-                let ins = c["in"].as_array().unwrap();
-                for (k, s) in ins.iter().enumerate() {
-                    let x = hexf(s.as_str().unwrap());
-                    if alpha && k == ins.len() - 1 { v[3] = x } else { v[k] = x }
+                let mut e = walk(&nodes, &table, &c, "path", mode);
+                e["ev"] = json!("walk");
+                e["id"] = c["id"].clone();
+                e["t"] = json!(TNAME);
+                e["tag"] = c.get("tag").cloned().unwrap_or(json!(""));
+                if mode == b'a' {
+                    // the same walk without transparency, for "attaching alpha never changes the colour"
+                    let b = walk(&nodes, &table, &c, "path", b'u');
+                    e["base"] = b["vals"].clone();
                 }
-                let path: Vec<usize> = c["path"].as_array().unwrap().iter().map(|p| idx(p.as_str().unwrap())).collect();
-                let mut names = vec![nodes[from].name];
-                let mut vals = vec![enc(&v, nodes[from].n, alpha)];
-                let mut oks: Vec<u8> = vec![1];
-                let mut hub: Vec<Value> = vec![];
-                let mut panic = 0u8;
-                let mut finite = fin(&v, nodes[from].n, alpha) as u8;
-                let mut missing = 0u8;
-                let xyz_i = 0usize;
-                let hub_of = |cur: usize, v: &V| -> Value {
-                    if cur == xyz_i { return enc(v, 3, false); }
-                    match table[cur][xyz_i] {
-                        Some(f) => match catch(|| f(v, b'u')) { Ok(o) => enc(&o.v, 3, false), Err(_) => json!("panic") },
-                        None => json!("none"),
-                    }
-                };
-                hub.push(hub_of(from, &v));
-                let mut cur = from;
-                for &to in &path {
-                    let f = match table[cur][to] { Some(f) => f, None => { missing = 1; break } };
-                    match catch(|| f(&v, mode)) {
-                        Ok(o) => {
-                            v = o.v;
-                            oks.push(o.ok as u8);
-                            if !fin(&v, nodes[to].n, alpha) { finite = 0; }
-                            names.push(nodes[to].name);
-                            vals.push(enc(&v, nodes[to].n, alpha));
-                            hub.push(hub_of(to, &v));
-                            cur = to;
-                        }
-                        Err(_) => { panic = 1; names.push(nodes[to].name); break }
-                    }
-                }
-                rec.ev(json!({"ev": "walk", "id": c["id"], "t": TNAME, "mode": (mode as char).to_string(), "nodes": names, "vals": vals,
-                              "ok": oks, "hub": hub, "panic": panic, "fin": finite, "missing": missing,
-                              "tag": c.get("tag").cloned().unwrap_or(json!(""))}));
+                rec.ev(e);
             }
         }
     }
